@@ -65,6 +65,7 @@ void h_INCLUDE_lines(void) {
     VPOST(t != NULL && t != old && t->Next == old && t->Processor == INCLUDE_Processor && t->Restorer == INCLUDE_Restorer && t->GetPos == INCLUDE_GetPos,
           "C20: INCLUDE pushes one input level that reads, restores and reports as an include file");
     VPOST(MomLineCounter == 0 && t->LineZ == 0, "C20: line counting starts afresh inside the included file");
+    VPOST(t->First, "C11: a fresh input level has not opened a local symbol space yet");
     VPOST(CurrFileName[0] == 'i' && CurrFileName[1] == 0, "C20: diagnostics inside the included file name that file");
     VPOST(g_addfile == 1 && g_pushinc == 1 && CurrIncludeLevel == inc0 + 1, "C20: the file is registered once");
     /* a few lines of the included file */
